@@ -374,14 +374,14 @@ def glue_models(ctx, oq, r, wd, aq, sig0, desc):
 
 
 def build_model(oq, r, wd, aq):
-    kind = ["mlp_small", "conv", "mlp_ln", "linear"][r.integers(4)]
+    kind = ["mlp_small", "conv", "mlp_ln", "linear", "attention"][r.integers(5)]
     wq = ["qint8", "qfloat8", "qint4"][r.integers(3)]
     if lifecycle.crash_hazard(kind, wd, wq, None):  # streamlining may switch activation quantization off
         wq = "qfloat8"
     def make():
         m, shp = lifecycle.build(kind, wd)
         b = Boom()
-        m = nn.Sequential(*list(m.children()), b)
+        m = nn.Sequential(*list(m.children()), b) if isinstance(m, nn.Sequential) else nn.Sequential(m, b)
         oq.quantize(m, weights=oq.qtypes[wq], activations=oq.qtypes[aq])
         return m, shp, b
 
@@ -544,7 +544,7 @@ def run(ctx):
             ctx.violation(dict(sig0, kind="uncalibrated_inference_raises", exc=type(e).__name__), dict(desc=desc, msg=str(e)[:200]))
         # ---- weights-only models (float activations), scalar heads and shared trunks included
         for _ in range(2):
-            k2 = ["scalar_head", "two_heads", "mlp_small", "conv", "linear"][int(r.integers(5))]
+            k2 = ["scalar_head", "two_heads", "mlp_small", "conv", "linear", "attention"][int(r.integers(6))]
             wq2 = ["qint8", "qfloat8", "qfloat8_e5m2", "qint4", "qint2"][int(r.integers(5))]
             if lifecycle.crash_hazard(k2, wd, wq2, None):
                 wq2 = "qfloat8"
